@@ -35,7 +35,7 @@ def main():
         for d in demos:
             shutil.copy(os.path.join(src, d), os.path.join(dst, "zz_seed_" + d if d.endswith("_test.go") else d))
         is_main = "main.go" in demos
-        run = f"go run ./{pkg}" if is_main else f"go test -vet=off -count=1 -run 'Demo|Seed|C[0-9][0-9]' ./{pkg}/"
+        run = f"go run ./{pkg}" if is_main else f"go test {os.environ.get('VERIFY_FLAGS','')} -vet=off -count=1 -run 'Demo|Seed|C[0-9][0-9]' ./{pkg}/"
         clean = sh(run, cwd=WT, env=env)
         ran.append({"cmd": run + "  (clean tree)", "exit": clean.returncode, "tail": clean.stdout[-400:]})
         if clean.returncode != 0:
